@@ -151,9 +151,9 @@ pub fn ms_a_alphabet(full: bool) -> Vec<Line> {
         &[None, Some((1, 1)), Some((2, 4)), Some((3, 6)), Some((4, 2)), Some((0, 3))]
     };
     let origs: &[Orig] = if full {
-        &[Orig::None, Orig::S(7), Orig::SE(7, 7), Orig::SE(7, 9), Orig::SE(9, 7), Orig::S(0), Orig::SE(0, 0)]
+        &[Orig::None, Orig::S(7), Orig::SE(7, 7), Orig::SE(7, 9), Orig::SE(9, 7), Orig::S(0), Orig::SE(0, 0), Orig::SE(7, 0)]
     } else {
-        &[Orig::None, Orig::S(7), Orig::SE(7, 9), Orig::SE(9, 7), Orig::SE(7, 7)]
+        &[Orig::None, Orig::S(7), Orig::SE(7, 9), Orig::SE(9, 7), Orig::SE(7, 7), Orig::SE(7, 0)]
     };
     let classes: &[Option<S>] = if full { &[None, Some("x.Y"), Some("x.Y$Z")] } else { &[None, Some("x.Y")] };
     let mut v = Vec::new();
@@ -469,6 +469,21 @@ pub fn ms_e(level: usize) -> ListSpace {
                 }
             }
         }
+        // one noise line at every position under every other terminator policy (short bases; all bases when thorough)
+        if thorough || b.len() <= 2 {
+            for pos in 0..=b.len() {
+                for nz in &noise {
+                    for t in [Term::CrLf, Term::Cr, Term::LfNoFinal, Term::LfLf] {
+                        if thorough && t == Term::CrLf {
+                            continue; // already added above
+                        }
+                        let mut f = b.clone();
+                        f.insert(pos, Line::Noise(nz));
+                        files.push((f, t));
+                    }
+                }
+            }
+        }
         // the unterminated sourceFile header followed, anywhere later, by a line starting with `"}`
         if !thorough && b.len() <= 3 {
             for p1 in 0..=b.len() {
@@ -523,7 +538,7 @@ pub fn ms_e(level: usize) -> ListSpace {
     }
     ListSpace {
         name: "MS-E form invariance".into(),
-        note: "every MS-B file of <=3 lines and MS-C files, under: each terminator policy (CRLF, CR, LF without final newline, blank line after every line); one noise line (blank, 'garbage', '    garbage', 'a -> b', '  int x -> y', invalid UTF-8, '\"}', unterminated sourceFile header) at every position (thorough: two); every permutation of class blocks with pairwise distinct names".into(),
+        note: "every MS-B file of <=3 lines and MS-C files, under: each terminator policy (CRLF, CR, LF without final newline, blank line after every line); one noise line under LF (and, for bases of <= 2 lines, under every terminator policy) (blank, 'garbage', '    garbage', 'a -> b', '  int x -> y', invalid UTF-8, '\"}', unterminated sourceFile header) at every position (thorough: two); every permutation of class blocks with pairwise distinct names".into(),
         files,
         wide: false,
     }
@@ -649,7 +664,17 @@ pub fn visit_model(prop: Prop, lines: &[Line], term: Term, wide: bool, ctx: &mut
     ctx.bytes = bytes;
 }
 
-type CaseFn<'c> = dyn Fn(Value, Value, Value) -> Value + 'c;
+pub type CaseFn<'c> = dyn Fn(Value, Value, Value) -> Value + 'c;
+
+/// run one model-based oracle with a caller-supplied model / universe / subjects (corpus visitor)
+pub fn run_oracle<'u>(prop: Prop, model: &'u Model, uni: &'u Universe, subjects: &[&'u dyn Subj; 3], acc: &mut Acc, size: usize, case: &CaseFn<'_>) {
+    match prop {
+        Prop::C01 => oracle_c01(model, uni, subjects, acc, size, case),
+        Prop::C03 => oracle_c03(model, uni, subjects, acc, size, case),
+        Prop::C04 => oracle_c04(model, uni, subjects, acc, size, case),
+        Prop::C02 => {}
+    }
+}
 
 const LABELS: [&str; 3] = ["mapper", "mapper-index", "cache"];
 
